@@ -3,7 +3,7 @@ open Lean Bermuda Bermuda.Codec
 
 /-- Line-protocol driver of the codec model for C19. Everything is `Codec.handle` (shared with C05 / C06);
 the answer to `prefixes` additionally says whether the case is an INSTANCE of the theorems
-`C19.decode_prefix_safe` / `decode_prefix_safe_py`: `wf cells`, `coherent cells`, and the file whose prefixes
+`C19.decode_prefix_safe` / `decode_prefix_safe_py` / `decode_prefix_safe_firstRepr`: `wf cells`, `coherent cells`, and the file whose prefixes
 were read IS `encode cells` (resp. `encodePy cells`). -/
 def handle19 (j : Json) : Except String Json := do
   let out ← Codec.handle j
@@ -13,8 +13,12 @@ def handle19 (j : Json) : Except String Json := do
     let cells ← rawCellsFromJson (← j.getObjVal? "cells")
     let w := wf cells
     let c := coherent cells
+    let outs ← (← (← j.getObjVal? "outs").getArr?).mapM rawCellsFromJson
+    let fr := firstRepr cells
     return out.mergeObj (Json.mkObj [
       ("wf", Json.bool w), ("coherent", Json.bool c),
+      -- oracle of C19.decode_prefix_safe_firstRepr: leading cells of what the intact file decodes to
+      ("specFirstRepr", Json.arr (outs.map (fun o => Json.bool (Spec.C19.prefixSafe fr o)))),
       ("fileIsEncode", Json.bool (w && fb == encode cells)),
       ("fileIsEncodePy", Json.bool (w && fb == encodePy cells))])
   | _ => return out
